@@ -111,7 +111,16 @@ pub fn run_matchn(args: &[&str]) -> String {
     let qtype = QTYPE::try_from(qt).unwrap_or(QTYPE::TYPE(TYPE::from(qt)));
     let null = simple_dns::rdata::NULL::new(&[1u8]).unwrap();
     let rr = ResourceRecord::new(Name::new_unchecked("a"), class, 0, RData::NULL(rt, null));
-    format!("{} {} {}", ty_tok(rr.rdata.type_code()), b01(rr.match_qtype(qtype)), b01(rr.match_qclass(qclass)))
+    let shown = |rr: &ResourceRecord| format!("{} {} {}", ty_tok(rr.rdata.type_code()), b01(rr.match_qtype(qtype)), b01(rr.match_qclass(qclass)));
+    // the same record with no data at all, and owned copies / clones of both: the type code decides, not the payload or the ownership
+    let empty = ResourceRecord::new(Name::new_unchecked("a"), class, 0, RData::NULL(rt, simple_dns::rdata::NULL::new(&[]).unwrap()));
+    let base = shown(&rr);
+    for v in [rr.clone(), rr.clone().into_owned(), empty.clone(), empty.clone().into_owned(), empty.clone().into_owned().clone()] {
+        if shown(&v) != base {
+            return format!("DIFF {} / {}", base, shown(&v));
+        }
+    }
+    base
 }
 
 pub fn run_rrmatch(args: &[&str]) -> String {
